@@ -30,8 +30,8 @@ ASSUMPTIONS = [
     "windows without a peak are not examined by the algorithm (they have no frequency to compare)",
 ]
 NOT_REACHED = ["find_peaks_kwargs other than None", "more than 80 windows per azimuth"]
-BUDGET = {"quick": dict(cases=1000, seconds=60, shards=4),
-          "thorough": dict(cases=32000, seconds=600, shards=16)}
+BUDGET = {"quick": dict(cases=3000, seconds=60, shards=4),
+          "thorough": dict(cases=120000, seconds=600, shards=16)}
 REQUIRED = ["mon:model-final-masks", "mon:model-iteration-count", "mon:accepted-set-non-increasing",
             "mon:trace-count-equals-return", "mon:returns-int-within-limit", "mon:permutation-invariant",
             "mon:rescaling-invariant", "iteration_events"]
@@ -283,5 +283,60 @@ def fam_limit(ctx, rng):
         ctx.nontrivial(["limit", n_curves, kw["n"], kw["max_iterations"], r["ret"], r["rejected"]])
 
 
-FAMILIES = [("traditional", fam_traditional), ("azimuthal", fam_azimuthal), ("iteration-limit", fam_limit),
+def fam_pre_rejected(ctx, rng):
+    """Windows rejected BEFORE the call, with the same search range and find_peaks_kwargs={} so that the peak search on
+    entry is a no-op: the accept state right after that search still holds the rejections, and they must stay."""
+    import hvsrpy
+    f, amp = gen_set(rng, n_curves=int(rng.integers(8, 40)))
+    sr = histories.rand_range(rng, f) if rng.random() < 0.4 else (None, None)
+    hv = hvsrpy.HvsrTraditional(f, amp)
+    hv.update_peaks_bounded(search_range_in_hz=sr, find_peaks_kwargs={})
+    ok = np.flatnonzero(hv.valid_peak_boolean_mask)
+    if ok.size < 6:
+        return
+    # reject windows from the middle of the distribution (they would lie inside the bounds)
+    order = ok[np.argsort(np.abs(np.log(hv._main_peak_frq[ok]) - np.median(np.log(hv._main_peak_frq[ok]))))]
+    pre = order[: int(rng.integers(1, max(2, ok.size // 4)))]
+    hv.valid_window_boolean_mask[pre] = False
+    hv.valid_peak_boolean_mask[pre] = False
+    kw = gen_kw(rng, f)
+    kw["search_range_in_hz"] = sr
+    kw["find_peaks_kwargs"] = {}
+    before = hv.valid_peak_boolean_mask.copy()
+    r = judge_call(ctx, hv, kw, "pre-rejected windows, entry search is a no-op")
+    ctx.describe(kind="traditional-pre-rejected", n_curves=int(amp.shape[0]), pre_rejected=pre,
+                 **{k: (list(v) if isinstance(v, tuple) else v) for k, v in kw.items()}, returned=None if r is None else r["ret"])
+    if r is None:
+        return
+    ctx.check(not np.any(hv.valid_peak_boolean_mask & ~before), "accepted-set-non-increasing",
+              "a window rejected before the call (entry peak search was a no-op) is accepted after it",
+              before=before.astype(int), after=hv.valid_peak_boolean_mask.astype(int), n=kw["n"])
+    ctx.nontrivial(["pre", amp.shape[0], len(pre), kw["n"], kw["max_iterations"], r["ret"], r["rejected"]])
+
+
+def fam_scattered(ctx, rng):
+    """Widely scattered, multi-modal peak frequencies with small n and many iterations: removing outliers on one side
+    moves the bounds, so a window rejected earlier may fall inside them again - it must stay rejected."""
+    import hvsrpy
+    n_curves = int(rng.integers(6, 40))
+    n_freq = 128
+    f = np.geomspace(0.2, 40, n_freq)
+    lf = np.log(f)
+    modes = rng.uniform(lf[8], lf[-9], int(rng.integers(2, 5)))
+    amp = np.empty((n_curves, n_freq))
+    for i in range(n_curves):
+        c = modes[int(rng.integers(0, modes.size))] + rng.normal(0, 0.25)
+        amp[i] = 1 + rng.uniform(2, 6) * np.exp(-0.5 * ((lf - c) / 0.12) ** 2) + 0.02 * rng.random(n_freq)
+    kw = dict(n=float(rng.choice([0.5, 0.75, 1.0, 1.25, 1.5, 2.0])), max_iterations=50,
+              distribution_fn=str(rng.choice(["lognormal", "normal"])), distribution_mc=str(rng.choice(["lognormal", "normal"])),
+              search_range_in_hz=(None, None))
+    hv = hvsrpy.HvsrTraditional(f, amp)
+    r = judge_call(ctx, hv, kw, "scattered")
+    ctx.describe(kind="traditional-scattered", n_curves=n_curves, modes=np.exp(modes),
+                 **{k: (list(v) if isinstance(v, tuple) else v) for k, v in kw.items()}, returned=None if r is None else r["ret"])
+    if r is not None and r["ret"] >= 2:
+        ctx.nontrivial(["scattered", n_curves, kw["n"], kw["distribution_fn"], r["ret"], r["rejected"]])
+
+
+FAMILIES = [("pre-rejected-windows", fam_pre_rejected), ("scattered-multimodal", fam_scattered), ("traditional", fam_traditional), ("azimuthal", fam_azimuthal), ("iteration-limit", fam_limit),
             ("traditional-2", fam_traditional)]
